@@ -197,9 +197,9 @@ theorem BuiltFor_PlaceholderOK : ∀ (b : B) (dt : DataType) (nl : Bool), BuiltF
   | .dictionary _ idx vals _, dt, nl, hb, hc => by
     simp only [BuiltFor] at hb
     obtain ⟨k, vdt, rfl, hk, hbi, hbv⟩ := hb
-    simp only [covered, Bool.and_eq_true] at hc
+    simp only [covered, hk, Bool.not_true, Bool.false_or] at hc
     simp only [PlaceholderOK]
-    have := strDT_builtFor vals vdt hc.2 hbv
+    have := strDT_builtFor vals vdt hc hbv
     exact ⟨fun _ => this.1, intLeaf_PlaceholderOK idx (isIntLeaf_of_builtFor idx k nl hk hbi), this.2⟩
   | .union _ fs _ _ _, dt, nl, hb, hc => by
     simp only [BuiltFor] at hb
